@@ -31,6 +31,8 @@ var c09Alphabet = []c09Op{
 	{"flat/leaf", `{"a1":"a"}`},
 	{"flat/leaf", `{"a2":1}`},
 	{"flat/leaves", `{"a1":"b","a2":2}`},
+	{"flat/zero-valued-leaf", `{"a2":0}`},
+	{"flat/empty-string-leaf", `{"a1":""}`},
 	{"flat/container", `{"b1":{"x":"a"}}`},
 	{"flat/list", `{"c1":[{"k":"a","v":"a"}]}`},
 	{"flat/list", `{"c1":[{"k":"b"}]}`},
